@@ -30,7 +30,9 @@ class DirHandler(BaseHandler):
     def prep_initfiles(self) -> None:
         """Initialize the list of files.  Ignore the files we're suppoed to."""
         self.files = []
-        dirfiles = self.vfs.listdir(self.getselector())
+        # Sorted, so that nothing (in particular the order in which link files
+        # are processed) depends on the order the OS enumerates the directory.
+        dirfiles = sorted(self.vfs.listdir(self.getselector()))
         ignorepatt = self.config.get("handlers.dir.DirHandler", "ignorepatt")
         for file in dirfiles:
             if self.prep_initfiles_canaddfile(
